@@ -296,10 +296,13 @@ def run(ctx):
                 check(ctx, mod, fn, rule, name + tag, spec, real)
                 if name.endswith('_sgndet'):
                     sign_not_from_product(ctx, mod, fn, name + tag)
+                if name in ('a_real_plu', 'a_real_ldl', 'a_real_llt'):
+                    multipliers_are_quotients(ctx, fn, name + tag)
     k = len(configs)
     rep.floor('F', 3 * k)
     rep.floor('P1', 3 * k)
     rep.floor('P2', 2 * k)
+    rep.floor('P3', 2 * k)
     rep.floor('S', 12 * k)
     rep.floor('D', 25 * k)
 
@@ -349,6 +352,30 @@ def guard_order(tree):
                 walk(t[3])
     walk(tree)
     return out
+
+
+def multipliers_are_quotients(ctx, fn, sym):
+    """P3: "duplicated rows are reported as failure" rests on a multiplier that is EXACTLY 1 for a row equal to the pivot row, so that
+    the row cancels to exact zeros and the next pivot vanishes.  x / p has that property (p / p = 1), x * (1 / p) has not (49 * (1/49) is
+    1 - 2^-53): the factorizations must not multiply by a reciprocal."""
+    rep = ctx.rep
+    recips = [i for i in fn.instrs() if i.op == 'fdiv' and i.ops[0].k == 'fp' and i.ops[0].v == 1.0]
+    used = []
+    for r in recips:
+        for i in fn.instrs():
+            if i.op == 'fmul' and any(o.k == 'reg' and o.v == r.res for o in i.ops):
+                used.append((r, i))
+            elif i.op == 'phi' and any(o.k == 'reg' and o.v == r.res for o in i.ops):
+                for j in fn.instrs():
+                    if j.op == 'fmul' and any(o.k == 'reg' and o.v == i.res for o in j.ops):
+                        used.append((r, j))
+    if used:
+        rep.bad('P3', sym, 'an element is multiplied by a reciprocal (1 / pivot) where the quotient element / pivot is meant: the multiplier of a row equal to '
+                'the pivot row is then not exactly 1, the row does not cancel and an exactly singular input is not reported', loc=fn.loc(used[0][1]),
+                key='%s: reciprocal multiplier' % fn.name)
+    else:
+        rep.ok('P3', sym, 'no product with a reciprocal: multipliers and scaled columns are quotients by the pivot (%d divisions)' % len([i for i in fn.instrs() if i.op == 'fdiv']),
+               loc=fn.loc(fn.entry.instrs[0]))
 
 
 def sign_not_from_product(ctx, mod, fn, sym):
